@@ -397,7 +397,7 @@ CHECKS["C04"] = {
         {"name": "history", "pkg": "internal/state", "pkgname": "state", "entry": "VerifC04History",
          "files": ["zz_verif_c04.go", "zz_verif_c17.go", "zz_verif_fixture.go", "zz_verif_world.go"], "with": ["verifdb"], "gen_stubs": [TX_STUB],
          "extra_overlay": {"internal/response/zz_verif_decode.go": "internal/response/zz_verif_decode.go"},
-         "params": {"quick": grid(k=[2], nA=[2], nB=[1], faults=[1]), "thorough": grid(k=[3], nA=[2], nB=[1], faults=[1]) + grid(k=[2], nA=[3], nB=[2], faults=[2])},
+         "params": {"quick": grid(k=[2], nA=[2], nB=[1], faults=[1]), "thorough": grid(k=[2], nA=[3], nB=[2], faults=[2]) + grid(k=[3], nA=[1], nB=[1], faults=[0])},
          "cover": ["append-ok", "copyuid-checked", "expunged-highest"]},
     ],
     "stubs": ["time.Now -> symbolic instant 1970..2255, monotone", "sync/atomic -> plain accesses (single goroutine)", "Time.Sub / Duration.Seconds -> whole seconds, no overflow within the clock bounds"],
